@@ -12,22 +12,17 @@ Inductive port_fx :=
 (* Port.put  (def put(self, packet: Packet):) *)
 Definition gen_Port_put (s : port_st) (element_id : option Z) (qlimit : option Z) (limit_bytes : bool) (debug : bool) (now : Q) (size : Z) (n_items : Z)
   : port_st * list port_fx :=
-let packets_received1 := ((g_packets_received s) + (1)%Z)%Z in
-let byte_count1 := ((g_byte_size s) + size)%Z in
-let fx1 :=
+  let packets_received1 := ((g_packets_received s) + (1)%Z)%Z in
+  let byte_count1 := ((g_byte_size s) + size)%Z in
+  let fx1 :=
     (match element_id with
      | None => []
      | Some element_id' => [(FxStamp (Some element_id') now)]
      end) in
-(match qlimit with
- | None => let byte_size1 := byte_count1 in
-({| g_packets_received := packets_received1; g_byte_size := byte_size1; g_packets_dropped := (g_packets_dropped s) |}, (fx1 ++ [FxStorePut]))
- | Some qlimit' => let '(byte_size3, packets_dropped2, fx2) :=
-    (if ((limit_bytes && (Z.ltb qlimit' byte_count1)) || ((negb limit_bytes) && (Z.leb (qlimit' - (1)%Z)%Z n_items)))
-     then let packets_dropped1 := ((g_packets_dropped s) + (1)%Z)%Z in
-((g_byte_size s), packets_dropped1, fx1)
-     else let byte_size2 := byte_count1 in
-(byte_size2, (g_packets_dropped s), (fx1 ++ [FxStorePut]))
-     ) in
-({| g_packets_received := packets_received1; g_byte_size := byte_size3; g_packets_dropped := packets_dropped2 |}, fx2)
- end).
+  (match qlimit with
+   | None => ({| g_packets_received := packets_received1; g_byte_size := byte_count1; g_packets_dropped := (g_packets_dropped s) |}, (fx1 ++ [FxStorePut]))
+   | Some qlimit' => (if ((limit_bytes && (Z.ltb qlimit' byte_count1)) || ((negb limit_bytes) && (Z.leb (qlimit' - (1)%Z)%Z n_items)))
+                      then let packets_dropped1 := ((g_packets_dropped s) + (1)%Z)%Z in
+                           ({| g_packets_received := packets_received1; g_byte_size := (g_byte_size s); g_packets_dropped := packets_dropped1 |}, fx1)
+                      else ({| g_packets_received := packets_received1; g_byte_size := byte_count1; g_packets_dropped := (g_packets_dropped s) |}, (fx1 ++ [FxStorePut])))
+   end).
